@@ -14,7 +14,7 @@ func init() {
 	register(&propDef{
 		ID: "C13",
 		Meta: propMeta{
-			Explanation: "Decides the write-then-rename protocol structurally: (R13a) inside lib/atomicfile the destination name is used by exactly one filesystem call, os.Rename(temp, dest), which is preceded by a checked Close of the temp file and whose success guards Commit's nil return; nothing removes, truncates or creates the destination; the temp file is created in filepath.Dir(dest); Close removes the temp; a direct os.Create happens only for special files. (R13b) typestate over every acquisition of an AtomicFile in the module: on every path to a return the file is committed, closed (incl. deferred), returned or stored — so no temp file survives a handled error; and nothing is written after Commit. (R13c) functions reachable from any Transformer.Apply / binpatch Apply never create or truncate files except through lib/atomicfile, and the source *os.File is written only on the in-place path guarded by canOverwrite. (R13d) errors of the copy/write calls in the rewrite path are propagated before Commit. (R13e) between acquiring an AtomicFile and committing it, the error of every fallible step is examined and its failure edge cannot reach Commit. (R13f) wherever a function reachable from the sign commands or a Transformer.Apply finishes an output encoder itself (armor, clearsign, gzip, zlib, tar, zip, base64: Close; bufio.Writer: Flush), at least one finishing call has its error used: the final bytes of what Transformer.Apply commits were written, or the failure is reported.",
+			Explanation: "Decides the write-then-rename protocol structurally: (R13a) inside lib/atomicfile the destination name is used by exactly one filesystem call, os.Rename(temp, dest), which is preceded by a checked Close of the temp file and whose success guards Commit's nil return; nothing removes, truncates or creates the destination; the temp file is created in filepath.Dir(dest); Close removes the temp; a direct os.Create happens only for special files. (R13b) typestate over every acquisition of an AtomicFile in the module: on every path to a return the file is committed, closed (incl. deferred), returned or stored — so no temp file survives a handled error; and nothing is written after Commit. (R13c) functions reachable from any Transformer.Apply / binpatch Apply never create or truncate files except through lib/atomicfile, and the source *os.File is written only on the in-place path guarded by canOverwrite. (R13d) errors of the copy/write calls in the rewrite path are propagated before Commit. (R13e) between acquiring an AtomicFile and committing it, the error of every fallible step is examined and its failure edge cannot reach Commit. (R13g) no io.Copy / io.CopyBuffer on the paths of PatchSet.Apply reads from an io.LimitReader without its byte count being used (io.CopyN reports a short source; control ctl/bufseek.CopyPart); (R13h) OpenForPatching opens the input read-write, and WriteInPlace hands the source on as the output, only behind an equality of the two path strings. (R13f) wherever a function reachable from the sign commands or a Transformer.Apply finishes an output encoder itself (armor, clearsign, gzip, zlib, tar, zip, base64: Close; bufio.Writer: Flush), at least one finishing call has its error used: the final bytes of what Transformer.Apply commits were written, or the failure is reported.",
 			NotDecided:  "what the kernel does at each crash instant (rename atomicity and ordering are assumed from POSIX); Windows semantics; the 4-byte in-place Fixup the sign commands run on the already-committed output.",
 			Assumptions: []string{"rename(2) within one directory is atomic and replaces the destination", "a finalizer is not a handled-error cleanup (it may never run)"},
 		},
@@ -147,6 +147,27 @@ func runC13(c *Ctx) {
 	c.Rule(rc, "code reachable from Transformer.Apply / PatchSet.Apply creates or truncates files only through lib/atomicfile; the source file is written only under canOverwrite", 8)
 	c.Rule(rd, "in the rewrite path every error of a copy/seek/write call is propagated before Commit", 5)
 	c.Rule("R13e", "between acquiring an AtomicFile and committing it, every fallible step's error is examined and its failure edge cannot reach Commit", 8)
+	c.Rule("R13g", "on the paths of PatchSet.Apply a copy of a known number of bytes notices a source that ends early", 0)
+	{
+		var roots []*ssa.Function
+		for _, spec := range []string{"lib/binpatch.(*PatchSet).Apply", "signers.ApplyBinPatch"} {
+			if f := p.Func(spec); f != nil {
+				roots = append(roots, f)
+			}
+		}
+		fs := boundedCopiesChecked(p, p.moduleReach(roots, nil))
+		for _, f := range fs {
+			c.Check(f.OK, "R13g", f.Key, f.Pos, "", f.Detail)
+		}
+		if len(fs) == 0 {
+			c.Note("R13g: no copy through an io.LimitReader on the paths of PatchSet.Apply (io.CopyN is used)")
+		}
+	}
+	c.runControl("R13g unchecked bounded copy control (ctl/bufseek.CopyPart)", "bufseek.CopyPart", func(cp *Prog) []gFinding { return boundedCopiesChecked(cp, nil) })
+	c.Rule("R13h", "the input is written in place only when the output is named by the same string", 2)
+	for _, f := range inPlaceOnlyForTheSameName(p) {
+		c.Check(f.OK, "R13h", f.Key, f.Pos, "", f.Detail, f.Path...)
+	}
 	c.Rule("R13f", "on the paths of the sign commands and of Transformer.Apply, an encoder that writes its last bytes when it is finished (armor, gzip, zlib, tar, zip, base64, bufio) has the error of at least one Close / Flush looked at by the function that finishes it", 5)
 	{
 		var roots13f []*ssa.Function
